@@ -9,7 +9,7 @@ package main
 // (lean/Rare/Model/PipelineTrace.lean, AggLoopTrace.lean) and answers with the counters of the terminal
 // state; the implementation's answer is its own counters.
 //
-// Case line:   <op> <blob>      blob = cfg/inputs/summary/trace   (one field, no `;` `,` so that the
+// Case line:   <op> <blob>      blob = cfg/inputs/summary/trace[/cls]   (one field, no `;` `,` so that the
 //                               generic shrinker of `check` leaves it alone: a trace with events removed
 //                               is rejected for a reason of the shrinker's own making)
 //   cfg     = mode.batch.workers.readers.buffer.flushms.missing.procs.delay[.more]   (decimal, mode f|r)
@@ -17,6 +17,8 @@ package main
 //   summary = read.matched.ignored.consumed.errors   (the implementation's own counters of that run)
 //   trace   = ev_ev_…    ev = g.kind.src.a.b  (g = goroutine number in order of first appearance,
 //                               src = source index or x, a b decimal)
+//   cls     = matcher.ignores.extract   (classification configuration, see clsSpec in c01.go; absent = the
+//                               fixed configuration harnessMatcher / ignore {1} / extract {0})
 
 import (
 	"fmt"
@@ -60,6 +62,16 @@ type traceCfg struct {
 	sampleUs int // every Sample takes this long …
 	spin     int // … 0: sleeping, 1: spinning without yielding the processor
 	startMs  int // the loop is started this long after the extractor (workers fill readChan and park)
+	// C01: classification configuration (nil = fixed legacy configuration)
+	cls *clsSpec
+}
+
+// blobTail is the optional fifth part of the blob.
+func (c traceCfg) blobTail() string {
+	if c.cls == nil {
+		return ""
+	}
+	return "/" + strings.Join(c.cls.fields(), ".")
 }
 
 func (c traceCfg) cfgString() string {
@@ -161,15 +173,22 @@ func openBatcher(c traceCfg) (*batchers.Batcher, func()) {
 		os.MkdirAll(dir, 0o755)
 		n := len(c.inputs)
 		names := make(chan string, n+2)
+		restore := func() {}
+		if c.cls != nil {
+			restore = inDir(dir) // relative names f0000…: {src} is the name the model knows
+		}
 		for i, in := range c.inputs {
 			p := filepath.Join(dir, fmt.Sprintf("f%04d", i))
 			if i != c.missing {
 				os.WriteFile(p, in, 0o644)
 			}
+			if c.cls != nil {
+				p = srcName(c.mode, i)
+			}
 			names <- p
 		}
 		close(names)
-		return batchers.OpenFilesToChan(names, false, c.readers, c.batch, c.buffer), func() { os.RemoveAll(dir) }
+		return batchers.OpenFilesToChan(names, false, c.readers, c.batch, c.buffer), func() { restore(); os.RemoveAll(dir) }
 	}
 }
 
@@ -203,8 +222,11 @@ func runPipeTraced(c traceCfg) tracedResult {
 	}
 	extractor.VerifTraceStart()
 	b, cleanup := openBatcher(c)
-	ig, _ := extractor.NewIgnoreExpressions("{1}")
-	ext, err := extractor.New(b.BatchChan(), &extractor.Config{Matcher: harnessMatcher{}, Extract: "{0}", Workers: c.workers, Ignore: ig})
+	ecfg, err := extractorConfig(c.cls, c.workers)
+	var ext *extractor.Extractor
+	if err == nil {
+		ext, err = extractor.New(b.BatchChan(), ecfg)
+	}
 	if err != nil {
 		extractor.VerifTraceStop()
 		panic(err)
@@ -230,7 +252,7 @@ var traceAnswers = map[string]string{}
 
 func pipeTraceCase(c traceCfg) string {
 	r := runPipeTraced(c)
-	blob := c.cfgString() + "/" + encodeInputs(c.inputs) + "/" + r.summary + "/" + encodeTrace(r.evs, srcIndex)
+	blob := c.cfgString() + "/" + encodeInputs(c.inputs) + "/" + r.summary + "/" + encodeTrace(r.evs, srcIndex) + c.blobTail()
 	cs := "ptrace " + blob
 	traceAnswers[cs] = "ok accepted final=" + r.summary
 	return cs
@@ -244,10 +266,17 @@ func pipeTraceRun(f []string) string {
 		return a
 	}
 	parts := strings.Split(f[1], "/")
-	if len(parts) != 4 {
+	if len(parts) != 4 && len(parts) != 5 {
 		return "bad-blob"
 	}
 	c := parseTraceCfg(parts[0], parts[1])
+	if len(parts) == 5 {
+		if q := strings.Split(parts[4], "."); len(q) == 3 {
+			c.cls = parseClsSpec(q[0], q[1], q[2])
+		} else {
+			return "bad-blob"
+		}
+	}
 	r := runPipeTraced(c)
 	if r.summary != parts[2] {
 		return "DIFF rerun-counters " + r.summary + " recorded " + parts[2]
@@ -313,6 +342,19 @@ func genTraceCfg(r *Rand, big bool) traceCfg {
 	return c
 }
 
+// genTraceCfgCls: a trace configuration with a generated classification configuration (C01 only).
+func genTraceCfgCls(r *Rand, big bool, i int) traceCfg {
+	c := genTraceCfg(r, big)
+	if i%6 != 4 { // one case in six keeps the legacy fixed configuration
+		mode := "files"
+		if c.mode == "r" {
+			mode = "reader"
+		}
+		c.cls = genClsSpec(r, mode, len(c.inputs))
+	}
+	return c
+}
+
 func pipeTraceGen(r *Rand, tier string) []string {
 	n := 60
 	if tier == "thorough" {
@@ -320,7 +362,7 @@ func pipeTraceGen(r *Rand, tier string) []string {
 	}
 	out := make([]string, 0, n)
 	for i := 0; i < n; i++ {
-		out = append(out, pipeTraceCase(genTraceCfg(r, tier == "thorough" || i%20 == 3)))
+		out = append(out, pipeTraceCase(genTraceCfgCls(r, tier == "thorough" || i%20 == 3, i)))
 	}
 	return out
 }
@@ -329,8 +371,15 @@ func pipeTraceGen(r *Rand, tier string) []string {
 func traceStats(st map[string]int, c string) {
 	f := strings.Fields(c)
 	parts := strings.Split(f[1], "/")
-	if len(parts) != 4 {
+	if len(parts) != 4 && len(parts) != 5 {
 		return
+	}
+	if len(parts) == 5 {
+		if q := strings.Split(parts[4], "."); len(q) == 3 {
+			clsStats(st, "trace.cls.", parseClsSpec(q[0], q[1], q[2]))
+		}
+	} else {
+		st["trace.cls.legacy"]++
 	}
 	cfg := strings.Split(parts[0], ".")
 	st["trace.cases"]++
@@ -447,14 +496,14 @@ func pipeMutGen(r *Rand, tier string) []string {
 	}
 	var out []string
 	for i := 0; i < n; i++ {
-		c := genTraceCfg(r, false)
+		c := genTraceCfgCls(r, false, i/6)
 		res := runPipeTraced(c)
 		kind := 1 + i%6
 		m := mutateTrace(r, kind, res.evs)
 		if m == nil {
 			continue
 		}
-		out = append(out, fmt.Sprintf("pmut%d %s/%s/%s/%s", kind, c.cfgString(), encodeInputs(c.inputs), res.summary, encodeTrace(m, srcIndex)))
+		out = append(out, fmt.Sprintf("pmut%d %s/%s/%s/%s%s", kind, c.cfgString(), encodeInputs(c.inputs), res.summary, encodeTrace(m, srcIndex), c.blobTail()))
 	}
 	return out
 }
